@@ -322,4 +322,161 @@ theorem getShards_sound (files : List File) (t : Bool) (e : Nat × List Shard) (
   rw [aliveIn_iff]
   exact ⟨r, hr, by rw [← hk]; rfl, htomb⟩
 
+/-! ### relations between directory listings -/
+
+/-- nothing is alive in `fs'` that was not alive at the same basename in `fs` -/
+def Mono (fs fs' : List File) : Prop := ∀ id c k, AliveAt fs' id c k → AliveAt fs id c k
+
+/-- … for repositories outside `A` -/
+def NoNew (A : List Nat) (fs fs' : List File) : Prop :=
+  ∀ id, A.contains id = false → ∀ c k, AliveAt fs' id c k → AliveAt fs id c k
+
+/-- every file of `fs'` is a file of `fs` up to its mtime -/
+def SubMod (fs fs' : List File) : Prop :=
+  ∀ f' ∈ fs', ∃ f ∈ fs, f.compound = f'.compound ∧ f.key = f'.key ∧ f.repos = f'.repos
+
+theorem Mono.refl (fs : List File) : Mono fs fs := fun _ _ _ h => h
+theorem Mono.trans {a b c : List File} (h1 : Mono a b) (h2 : Mono b c) : Mono a c := fun id c' k h => h1 id c' k (h2 id c' k h)
+theorem Mono.noNew {A : List Nat} {a b : List File} (h : Mono a b) : NoNew A a b := fun id _ c k hh => h id c k hh
+theorem NoNew.refl (A : List Nat) (fs : List File) : NoNew A fs fs := fun _ _ _ _ h => h
+theorem NoNew.trans {A : List Nat} {a b c : List File} (h1 : NoNew A a b) (h2 : NoNew A b c) : NoNew A a c :=
+  fun id hid c' k h => h1 id hid c' k (h2 id hid c' k h)
+theorem SubMod.refl (fs : List File) : SubMod fs fs := fun f hf => ⟨f, hf, rfl, rfl, rfl⟩
+theorem SubMod.trans {a b c : List File} (h1 : SubMod a b) (h2 : SubMod b c) : SubMod a c := by
+  intro f hf
+  obtain ⟨g, hg, e1, e2, e3⟩ := h2 f hf
+  obtain ⟨g', hg', e1', e2', e3'⟩ := h1 g hg
+  exact ⟨g', hg', e1'.trans e1, e2'.trans e2, e3'.trans e3⟩
+
+theorem subMod_rmBase (fs : List File) (c : Bool) (k : Nat) : SubMod fs (rmBase fs c k) := by
+  intro f hf
+  simp only [rmBase, List.mem_filter] at hf
+  exact ⟨f, hf.1, rfl, rfl, rfl⟩
+
+theorem subMod_touch (fs : List File) (c : Bool) (k : Nat) (t : Int) : SubMod fs (touch fs c k t) := by
+  intro f hf
+  simp only [touch, List.mem_map] at hf
+  obtain ⟨g, hg, rfl⟩ := hf
+  refine ⟨g, hg, ?_, ?_, ?_⟩ <;> split <;> rfl
+
+theorem mono_rmBase (fs : List File) (c : Bool) (k : Nat) : Mono fs (rmBase fs c k) := fun _ _ _ h => (aliveAt_rmBase h).1
+theorem mono_touch (fs : List File) (c : Bool) (k : Nat) (t : Int) : Mono fs (touch fs c k t) := fun _ _ _ h => aliveAt_touch.mp h
+theorem mono_setTomb_true (fs : List File) (c : Bool) (k a : Nat) : Mono fs (setTombIn fs c k a true) :=
+  fun _ _ _ h => (aliveAt_setTomb_true h).1
+
+/-! ### directory operations -/
+
+theorem removeShard_facts (d : Dir) (s : Shard) :
+    Mono d.index (removeShard d s).index ∧ SubMod d.trash (removeShard d s).trash ∧
+    (s.inTrash = true → (removeShard d s).index = d.index) ∧ (s.inTrash = false → (removeShard d s).trash = d.trash) ∧
+    (s.inTrash = false → ∀ id, ¬ AliveAt (removeShard d s).index id s.compound s.key) := by
+  unfold removeShard
+  cases hs : s.inTrash
+  · simp only [Bool.false_eq_true, if_false]
+    refine ⟨mono_rmBase _ _ _, SubMod.refl _, fun h => False.elim h, fun _ => trivial, fun _ id h => (aliveAt_rmBase h).2 ⟨rfl, rfl⟩⟩
+  · simp only [if_true]
+    exact ⟨Mono.refl _, subMod_rmBase _ _ _, fun _ => trivial, fun h => Bool.noConfusion h, fun h => Bool.noConfusion h⟩
+
+theorem removeAll_facts (shards : List Shard) (d : Dir) :
+    Mono d.index (removeAll d shards).index ∧ SubMod d.trash (removeAll d shards).trash ∧
+    ((∀ s ∈ shards, s.inTrash = true) → (removeAll d shards).index = d.index) ∧
+    ((∀ s ∈ shards, s.inTrash = false) → (removeAll d shards).trash = d.trash) ∧
+    (∀ s ∈ shards, s.inTrash = false → ∀ id, ¬ AliveAt (removeAll d shards).index id s.compound s.key) := by
+  induction shards generalizing d with
+  | nil => exact ⟨Mono.refl _, SubMod.refl _, fun _ => rfl, fun _ => rfl, fun _ h => by cases h⟩
+  | cons s r ih =>
+    simp only [removeAll, List.foldl_cons]
+    have h1 := removeShard_facts d s
+    have h2 := ih (removeShard d s)
+    simp only [removeAll] at h2
+    refine ⟨h1.1.trans h2.1, h1.2.1.trans h2.2.1, ?_, ?_, ?_⟩
+    · intro h; rw [h2.2.2.1 (fun s' hs' => h s' (by simp [hs'])), h1.2.2.1 (h s (by simp))]
+    · intro h; rw [h2.2.2.2.1 (fun s' hs' => h s' (by simp [hs'])), h1.2.2.2.1 (h s (by simp))]
+    · intro s' hs' hin id hal
+      rcases List.mem_cons.mp hs' with rfl | hs''
+      · exact h1.2.2.2.2 hin id (h2.1 id _ _ hal)
+      · exact h2.2.2.2.2 s' hs'' hin id hal
+
+theorem chtimes_facts (d : Dir) (s : Shard) (t : Int) :
+    Mono d.index (chtimes d s t).index ∧ Mono (chtimes d s t).index d.index ∧ SubMod d.trash (chtimes d s t).trash ∧
+    (s.inTrash = true → (chtimes d s t).index = d.index) ∧ (s.inTrash = false → (chtimes d s t).trash = d.trash) := by
+  unfold chtimes
+  cases hs : s.inTrash
+  · simp only [Bool.false_eq_true, if_false]
+    exact ⟨mono_touch _ _ _ _, fun _ _ _ h => aliveAt_touch.mpr h, SubMod.refl _, fun h => False.elim h, fun _ => trivial⟩
+  · simp only [if_true]
+    exact ⟨Mono.refl _, Mono.refl _, subMod_touch _ _ _ _, fun _ => trivial, fun h => Bool.noConfusion h⟩
+
+theorem moveOne_toTrash_facts (d : Dir) (s : Shard) :
+    Mono d.index (moveOne true d s).index ∧ ∀ id, ¬ AliveAt (moveOne true d s).index id s.compound s.key :=
+  ⟨fun _ _ _ h => (aliveAt_moveOne_toTrash h).1, fun _ h => (aliveAt_moveOne_toTrash h).2 ⟨rfl, rfl⟩⟩
+
+theorem moveAll_toTrash_facts (shards : List Shard) (d : Dir) :
+    Mono d.index (moveAll true d shards).index ∧ ∀ s ∈ shards, ∀ id, ¬ AliveAt (moveAll true d shards).index id s.compound s.key := by
+  induction shards generalizing d with
+  | nil => exact ⟨Mono.refl _, fun _ h => by cases h⟩
+  | cons s r ih =>
+    simp only [moveAll, List.foldl_cons]
+    have h1 := moveOne_toTrash_facts d s
+    have h2 := ih (moveOne true d s)
+    simp only [moveAll] at h2
+    refine ⟨h1.1.trans h2.1, ?_⟩
+    intro s' hs' id hal
+    rcases List.mem_cons.mp hs' with rfl | hs''
+    · exact h1.2 id (h2.1 id _ _ hal)
+    · exact h2.2 s' hs'' id hal
+
+/-- restoring is safe for the repositories outside `A` when the restored file lists only repositories of `A` alive -/
+def SafeAt (A : List Nat) (trash : List File) (c : Bool) (k : Nat) : Prop :=
+  ∀ f ∈ trash, sameBase f c k = true → ∀ id, aliveIn f id = true → A.contains id = true
+
+theorem safeAt_subMod {A : List Nat} {t0 t : List File} {c : Bool} {k : Nat} (hs : SubMod t0 t) (h : SafeAt A t0 c k) : SafeAt A t c k := by
+  intro f hf hb id ha
+  obtain ⟨g, hg, e1, e2, e3⟩ := hs f hf
+  apply h g hg
+  · rw [sameBase_iff] at hb ⊢; exact ⟨e1.trans hb.1, e2.trans hb.2⟩
+  · simp only [aliveIn] at ha ⊢; rw [e3]; exact ha
+
+theorem moveOne_toIndex_facts (A : List Nat) (d : Dir) (s : Shard) (hsafe : SafeAt A d.trash s.compound s.key) :
+    NoNew A d.index (moveOne false d s).index ∧ SubMod d.trash (moveOne false d s).trash := by
+  unfold moveOne
+  simp only [Bool.false_eq_true, if_false]
+  split
+  · exact ⟨(mono_rmBase _ _ _).noNew, subMod_rmBase _ _ _⟩
+  · split
+    · exact ⟨(mono_rmBase _ _ _).noNew, SubMod.refl _⟩
+    · rename_i f hf
+      refine ⟨?_, subMod_rmBase _ _ _⟩
+      intro id hid c k hal
+      obtain ⟨g, hg, hb, ha⟩ := hal
+      rcases List.mem_cons.mp hg with rfl | hg'
+      · have := hsafe g (getBase_some hf).1 (getBase_some hf).2 id ha
+        rw [hid] at this; cases this
+      · exact (aliveAt_rmBase ⟨g, hg', hb, ha⟩).1
+
+theorem moveAll_toIndex_facts (A : List Nat) (t0 : List File) (shards : List Shard) (d : Dir) (hsub : SubMod t0 d.trash)
+    (hsafe : ∀ s ∈ shards, SafeAt A t0 s.compound s.key) :
+    NoNew A d.index (moveAll false d shards).index ∧ SubMod t0 (moveAll false d shards).trash := by
+  induction shards generalizing d with
+  | nil => exact ⟨NoNew.refl _ _, hsub⟩
+  | cons s r ih =>
+    simp only [moveAll, List.foldl_cons]
+    have h1 := moveOne_toIndex_facts A d s (safeAt_subMod hsub (hsafe s (by simp)))
+    have h2 := ih (moveOne false d s) (hsub.trans h1.2) (fun s' hs' => hsafe s' (by simp [hs']))
+    simp only [moveAll] at h2
+    exact ⟨h1.1.trans h2.1, h2.2⟩
+
+theorem setTomb_true_facts (d : Dir) (s : Shard) (a : Nat) :
+    Mono d.index (setTomb d s a true).index ∧ (setTomb d s a true).trash = d.trash ∧
+    ¬ AliveAt (setTomb d s a true).index a s.compound s.key :=
+  ⟨mono_setTomb_true _ _ _ _, rfl, fun h => (aliveAt_setTomb_true h).2 ⟨rfl, rfl, rfl⟩⟩
+
+theorem setTomb_false_facts (A : List Nat) (d : Dir) (s : Shard) (a : Nat) (ha : A.contains a = true) :
+    NoNew A d.index (setTomb d s a false).index ∧ (setTomb d s a false).trash = d.trash := by
+  refine ⟨?_, rfl⟩
+  intro id hid c k hal
+  rcases aliveAt_setTomb_false hal with h | h
+  · exact h
+  · rw [h, ha] at hid; cases hid
+
 end ZoektModel.C32
